@@ -237,9 +237,23 @@ def c10_runs(tier, hb=0):
     return r
 
 
+def c11_runs(tier, hb=0):
+    q = tier == 'quick'
+    h = 'harness/wait.c'
+    cv = ['wait.termination-delivered', 'wait.exit-code-delivered', 'wait.stop-or-continue-delivered',
+          'wait.stranger-reaped', 'wait.quiescent', 'wait.unregister-in-handler']
+    r = [mt_run('strangers', h, cv, preempt=1 if q else 2, C=3, strangers=1, events=3 if q else 4, ops=2, hb=hb),
+         mt_run('spawn+kill', h, cv + ['wait.spawn-child-ran', 'wait.kill-forwarded', 'env.fork-child-copy-explored'],
+                preempt=2, C=2, strangers=1, events=3, spawn=1, kill=1, ops=2, hb=hb),
+         mt_run('kill.poll', h, ['wait.termination-delivered', 'wait.kill-forwarded', 'wait.quiescent'],
+                preempt=1 if q else 2, C=2, strangers=0, events=4 if q else 5, kill=1, ops=2, poll=1, hb=hb)]
+    return r
+
+
 def c14_runs(tier):
     r = []
     sig = [x for x in c10_runs(tier, hb=1) if x['name'] in ('two-threads', 'one-thread.I2')]
+    sig += [x for x in c11_runs(tier, hb=1) if x['name'] == 'spawn+kill']
     for x in c08_runs(tier, hb=1) + c09_runs(tier, hb=1) + sig:
         x = dict(x)
         x['name'] = 'race.' + x['name']
@@ -369,6 +383,19 @@ CHECKS = {
                        'serialises its ghost-set update with deliveries (every real execution orders the library\'s '
                        'locked tree walk before or after the update); hand-off across sets (this-thread -> process-wide) '
                        'is not required by the oracle (reading of the property: next interest of the same set)',
+            'assumptions': ENV_ASSUMPTIONS},
+    'C11': {'runs': c11_runs,
+            'explanation': 'C11: children with and without interests (plain registration by pid and '
+                           'iv_wait_interest_register_spawn through the fork model) change state (stopped, continued, '
+                           'killed, exited with an unknown code) at points chosen by a world thread; interests are '
+                           'unregistered and used for iv_wait_interest_kill from their handlers; oracles: the statuses '
+                           'delivered to an interest are exactly, in order, those wait4 handed to the library for its '
+                           'pid while it was registered; nothing after termination; no zombie at quiescence; kill never '
+                           'reaches a pid whose termination was reaped; strangers are harmless.',
+            'bounds': {'quick': '2-3 children (0-1 strangers), 3-4 state changes, 2 handler operations, preemption '
+                                'bound 1-2, interests in one thread', 'thorough': '4-5 state changes, bound 2'},
+            'outside': 'interests spread over several threads with registrations concurrent to reaping (the ghost '
+                       'set cannot be kept in step with the library\'s locked tree from outside); pid reuse',
             'assumptions': ENV_ASSUMPTIONS},
     'C14': {'runs': c14_runs,
             'explanation': 'C14: happens-before (vector clock) race monitor over every load/store that library code '
